@@ -319,6 +319,19 @@ class NdBuf(Model):
     def T(self):
         return Sym(("T", self.origin))
 
+    @property
+    def shape(self):
+        if self.shape_ is None:
+            raise Unsupported("shape of the buffer %s is not known" % self.name)
+        return tuple(self.shape_) if isinstance(self.shape_, (list, tuple)) else (self.shape_,)
+
+    @property
+    def size(self):
+        n = 1
+        for d in self.shape:
+            n = n * d
+        return n
+
 
 class ArrBuf(Model):
     """osyris Array as the readers use it: a unit and a raw buffer"""
@@ -616,7 +629,7 @@ def symsem(o):
 
 
 
-def run_block(tree, cq, variables, spec_records, subst, lmax=5, ilevel=2, domain_header=True, levelmax=None):
+def run_block(tree, cq, variables, spec_records, subst, lmax=5, ilevel=2, domain_header=True, levelmax=None, ndim=3):
     """one (level, domain) block in owner mode, following the loader's call protocol (established by the Loader.load fold)"""
     base = {k: si("o_" + k) for k in "bidnsql"}
     B = position(base)
@@ -625,6 +638,8 @@ def run_block(tree, cq, variables, spec_records, subst, lmax=5, ilevel=2, domain
     ci, r = new_reader(tree, cq, hooks, variables, offsets=dict(base))
     info = base_info()
     info["lmax"] = lmax
+    info["ndim"] = ndim
+    two = 2 ** ndim
     if levelmax is not None:
         info["levelmax"] = levelmax
     r._attrs.setdefault("meta", {})
@@ -633,15 +648,15 @@ def run_block(tree, cq, variables, spec_records, subst, lmax=5, ilevel=2, domain
     if cq == AMR:
         pass
         r._attrs["xcent"] = NdBuf("xcent")
-    call(tree, hooks, ci, r, "read_level_header", ilevel, 8)
+    call(tree, hooks, ci, r, "read_level_header", ilevel, two)
     if domain_header:
         call(tree, hooks, ci, r, "read_domain_header")
     after_dh = position(r._attrs["offsets"])
-    call(tree, hooks, ci, r, "allocate_buffers", ncache, 8)
-    call(tree, hooks, ci, r, "read_cacheline_header", ncache, 3)
-    for ind in range(8):
+    call(tree, hooks, ci, r, "allocate_buffers", ncache, two)
+    call(tree, hooks, ci, r, "read_cacheline_header", ncache, ndim)
+    for ind in range(two):
         call(tree, hooks, ci, r, "read_variables", ncache, ind, ilevel, si("cpuid"), info)
-    call(tree, hooks, ci, r, "read_footer", ncache, 8)
+    call(tree, hooks, ci, r, "read_footer", ncache, two)
     return fold, ci, r, info, hooks, B, after_dh
 
 
@@ -654,6 +669,10 @@ def check_bodies(run, tree, aspects=("layout", "values", "skip"), all_subsets=Fa
         # partial selections of the AMR variables: each remaining variable is still filled from its own axis / record
         for off in (("position_x",), ("position_x", "position_y", "level"), ("position_y", "dx", "cpu")):
             cases.append((AMR, "amr", {k: ((k not in off), t) for k, (_, t) in amr_vars.items()}, L.AMR_BODY, {"ndim": Poly.const(3), "twotondim": Poly.const(8)}, False))
+    # a 2-D output (the buffers of the reader are always 3 columns wide; the FILE holds ndim coordinate records per grid), with and without positions
+    amr2 = {k: v for k, v in amr_vars.items() if k != "position_z"}
+    cases.append((AMR, "amr", amr2, L.AMR_BODY, {"ndim": Poly.const(2), "twotondim": Poly.const(4)}, False, 2))
+    cases.append((AMR, "amr", {k: (not k.startswith("position"), t) for k, (_, t) in amr2.items()}, L.AMR_BODY, {"ndim": Poly.const(2), "twotondim": Poly.const(4)}, False, 2))
     for name, (cq, _) in MESH.items():
         cases.append((cq, name, hydro_vars, L.DOMAIN_HEADER + L.VAR_BODY, {"twotondim": Poly.const(8), "nvar": Poly.const(3)}, True))
         if "values" in aspects or "layout" in aspects:
@@ -671,14 +690,15 @@ def check_bodies(run, tree, aspects=("layout", "values", "skip"), all_subsets=Fa
         for name, (cq, _) in MESH.items():
             for flags in itertools.product((True, False), repeat=3):
                 cases.append((cq, name, {"v%d" % (i + 1): (f, "d") for i, f in enumerate(flags)}, L.DOMAIN_HEADER + L.VAR_BODY, {"twotondim": Poly.const(8), "nvar": Poly.const(3)}, True))
-    for cq, name, variables, spec, subst, dh in cases:
+    for cq, name, variables, spec, subst, dh, *nd in cases:
+        ndim_ = nd[0] if nd else 3
         m = tree.method(tree.cls(cq), "read_variables")
         run.analysed(m)
         off = [k for k, (rd, _) in variables.items() if not rd]
-        construct = "%s::owner-block" % cq + ("[not selected: %s]" % ", ".join(off) if (cq == AMR or all_subsets or off != ["v2"]) and off else "")
+        construct = "%s::owner-block" % cq + ("[ndim=%d]" % ndim_ if ndim_ != 3 else "") + ("[not selected: %s]" % ", ".join(off) if (cq == AMR or all_subsets or off != ["v2"]) and off else "")
         try:
             try:
-                fold, ci, r, info, hooks, B, after_dh = run_block(tree, cq, variables, spec, subst, domain_header=True)
+                fold, ci, r, info, hooks, B, after_dh = run_block(tree, cq, variables, spec, subst, domain_header=True, ndim=ndim_)
             except (Raised, ProgramRaised) as e:
                 run.violated(construct, m.where(), "raises %s" % e, "reading any %s file" % name)
                 continue
@@ -728,7 +748,7 @@ def check_bodies(run, tree, aspects=("layout", "values", "skip"), all_subsets=Fa
                                 problems.append("%s: values scaled by %s (required the magnitude of its own unit, paired with the label)" % (vn, mags))
                                 break
                 else:
-                    problems += amr_values(r, variables, ncache, ilevel=2)
+                    problems += amr_values(r, variables, ncache, ilevel=2, ndim=ndim_)
                 run.ob(construct + "::values", not problems, m.where(), "; ".join(problems[:3]) or
                        "every selected variable: rows [ind*ncache, (ind+1)*ncache) of its buffer <- its own record, scaled by the magnitude and labelled "
                        "with the unit of the same entry",
@@ -739,9 +759,9 @@ def check_bodies(run, tree, aspects=("layout", "values", "skip"), all_subsets=Fa
                 hooks2 = layout_hooks(fold2)
                 ci2, r2 = new_reader(tree, cq, hooks2, variables, offsets=dict(base))
                 call(tree, hooks2, ci2, r2, "read_domain_header")
-                call(tree, hooks2, ci2, r2, "step_over", ncache, 8, 3)
+                call(tree, hooks2, ci2, r2, "step_over", ncache, 2 ** ndim_, ndim_)
                 end2 = position(r2._attrs["offsets"])
-                run.ob("%s.step_over" % cq, end2 == end and not fold2.events, m.where(),
+                run.ob("%s.step_over" % cq + ("[ndim=%d]" % ndim_ if ndim_ != 3 else ""), end2 == end and not fold2.events, m.where(),
                        "step_over advances by %r bytes, the owner path by %r" % (end2 - B, end - B),
                        "after a block that belongs to another domain every record is decoded from shifted bytes")
         except ERR as e:
@@ -755,7 +775,8 @@ def _walk(o):
             yield from _walk(x)
 
 
-def amr_values(r, variables, ncache, ilevel):
+def amr_values(r, variables, ncache, ilevel, ndim=3):
+    two = 2 ** ndim
     problems = []
     vars_ = r._attrs["variables"]
     dx = 0.5 ** (ilevel + 1)
@@ -771,7 +792,7 @@ def amr_values(r, variables, ncache, ilevel):
             return None
         if not (isinstance(buf.unit, UnitTok) and buf.unit.name == "unit:" + name):
             problems.append("buffer of %s is labelled %r" % (name, getattr(buf.unit, "name", buf.unit)))
-        if len(buf._array.writes) != 8:
+        if len(buf._array.writes) != two:
             problems.append("%d writes into the buffer of %s (required one per child cell)" % (len(buf._array.writes), name))
             return None
         return buf._array.writes
@@ -784,7 +805,7 @@ def amr_values(r, variables, ncache, ilevel):
             if origin_of(idx) != want_idx or got != want(ind):
                 problems.append("%s, child %d: rows %s <- %r (required rows %s <- %r)" % (name, ind, origin_of(idx), got, want_idx, want(ind)))
                 break
-    for n, c in enumerate("xyz"):
+    for n, c in enumerate("xyz"[:ndim]):
         ws = writes("position_" + c)
         for ind, (idx, val) in enumerate(ws or []):
             o = origin_of(val)
@@ -802,7 +823,7 @@ def amr_values(r, variables, ncache, ilevel):
     # son / refinement flag
     son = r._attrs.get("son")
     ref = r._attrs.get("ref")
-    if not (isinstance(son, NdBuf) and len(son.writes) == 8):
+    if not (isinstance(son, NdBuf) and len(son.writes) == two):
         problems.append("son indices: %r" % (son,))
     else:
         for ind, (idx, val) in enumerate(son.writes):
